@@ -53,7 +53,8 @@ def main() -> int:
     else:
         r0 = sh([PY, str(demo)], env=env, cwd=str(WT), timeout=600)
     record["demo_on_clean_tree"] = {"exit": r0.returncode, "tail": (r0.stdout + r0.stderr)[-300:]}
-    a = sh(["git", "-C", str(WT), "apply", str(src / "patch.diff")])
+    a = sh(["git", "-C", str(WT), "apply", "--3way", str(src / "patch.diff")])  # the scratch tree may be newer than the patch's base
+    sh(["git", "-C", str(WT), "reset", "-q"])
     if a.returncode != 0:
         print("patch does not apply:", a.stderr)
         return 2
